@@ -22,12 +22,12 @@ import driver_trace as dt   # noqa: E402
 # output is searched, so that the text of the input cannot fake an error line or a fault report.
 ECHO_LINE = re.compile(rb'^"[^"\n]*", line \d+: .*$', re.M)
 ERR_LINE = re.compile(rb"#\d+ \((?:Fatal )?Error\) ")
-FAULTS = [("program-fault", re.compile(rb"#\d+ \((?:Fatal )?Error\) Program fault")),
-          ("unexpected-signal", re.compile(rb"#\d+ \((?:Fatal )?Error\) Unexpected signal")),
-          ("bug", re.compile(rb"^Bug: |Compiler bug\.\.\.", re.M)),
+FAULTS = [("sanitizer", re.compile(rb"ERROR: AddressSanitizer|: runtime error: |ERROR: LeakSanitizer")),
+          ("bug", re.compile(rb"Bug: |Compiler bug\.\.\.")),
           ("assert", re.compile(rb"Assertion failed, file ")),
-          ("out-of-memory", re.compile(rb"#\d+ \((?:Fatal )?Error\) Storage allocation error")),
-          ("sanitizer", re.compile(rb"ERROR: AddressSanitizer|runtime error: |ERROR: LeakSanitizer"))]
+          ("program-fault", re.compile(rb"#\d+ \((?:Fatal )?Error\) Program fault")),
+          ("unexpected-signal", re.compile(rb"#\d+ \((?:Fatal )?Error\) Unexpected signal")),
+          ("out-of-memory", re.compile(rb"#\d+ \((?:Fatal )?Error\) Storage allocation error"))]
 TIMEOUT_RC = 124
 
 
